@@ -254,6 +254,12 @@ def check_doc(ctx, doc, case, stratum="foreign"):
     for m in sorted({generic_path(p) for p, _, _ in paths}):
         ex = [p for p in paths if generic_path(p[0]) == m][0]
         ctx.disc(None, f"foreign-not-preserved[{m}]", ex[0], ex[1], ex[2], stratum=stratum, case=case)
+    # what a user does with a loaded HUGR next must not reach the documents loaded later in this process: metadata is
+    # written on every node of the loaded HUGR that came without any (the HUGR is dropped afterwards)
+    ctx.count("monitor:loaded-hugr-annotated-afterwards")
+    for n_ in list(h):
+        if not h[n_].metadata:
+            h[n_].metadata["verif.written-on-an-earlier-document"] = n_.idx
     return True
 
 
